@@ -5,6 +5,7 @@ Confirms a seeded change in a scratch worktree (applies, builds, suite passes, d
 fails with it and passes without it), runs the listed checks against /repo with the change
 applied, undoes it, and files everything under /verif/seeded/<seed_id>/."""
 import json, os, shutil, subprocess, sys, tempfile
+REPO = os.environ.get("REPO_ROOT", "/repo")
 
 ENV = dict(os.environ, GOFLAGS="-mod=mod", GOPROXY="off", GOSUMDB="off", GOTOOLCHAIN="local")
 
@@ -26,7 +27,7 @@ def step(name, cmd, cwd, want_ok):
     ran.append({"step": name, "cmd": cmd, "rc": rc, "as_expected": ok, "tail": out[-300:]})
     return ok
 good = True
-rc, out = sh("git -C /repo worktree add -q --detach %s HEAD" % wt)
+rc, out = sh("git -C %s worktree add -q --detach %s HEAD" % (REPO, wt))
 try:
     good &= step("demo passes on unchanged tree", "cp %s demo_seed_test.go && go test -count=1 -run TestSeeded . ; rc=$?; rm -f demo_seed_test.go; exit $rc" % demo, wt, True)
     good &= step("patch applies", "git apply %s" % patch, wt, True)
@@ -34,12 +35,12 @@ try:
     good &= step("existing suite passes with the change", "go test -vet=off -count=1 ./...", wt, True)
     good &= step("demo fails with the change", "cp %s demo_seed_test.go && go test -count=1 -run TestSeeded . ; rc=$?; rm -f demo_seed_test.go; exit $rc" % demo, wt, False)
 finally:
-    sh("git -C /repo worktree remove --force %s" % wt)
+    sh("git -C %s worktree remove --force %s" % (REPO, wt))
 results = {}
 if good:
-    rc, out = sh("git diff --quiet", "/repo")
+    rc, out = sh("git diff --quiet", REPO)
     assert rc == 0, "/repo dirty"
-    rc, out = sh("git apply %s" % patch, "/repo")
+    rc, out = sh("git apply %s" % patch, REPO)
     try:
         for c in checks:
             rc, out = sh("./check %s quick" % c, os.environ.get("VERIF_ROOT", "/verif"))
@@ -55,7 +56,7 @@ if good:
                     except Exception:
                         pass
     finally:
-        sh("git checkout -- .", "/repo")
+        sh("git checkout -- .", REPO)
         # evidence written while the change was applied is not evidence about /repo: put the committed files back
         sh("git checkout -- evidence", os.environ.get("VERIF_ROOT", "/verif"))
 dst = os.path.join("/verif/seeded", seed_id)
